@@ -14,6 +14,12 @@ def groups(tier):
                   clause='is_private_or_reserved_host(dotted quad) <=> the address is non-routable (through the real parser)', **U),
             Group('host.mapped', 'advertise', 'C34/classify.c', entry='h_host_mapped',
                   clause='is_private_or_reserved_host(::ffff:a.b.c.d) for every non-routable a.b.c.d', **U),
+            Group('candidates.transport', 'advertise_flow', 'C34/flow.c', entry='h_transport', unwind=3, kind='skeleton', checks=[], skeleton=True,
+                  replay='flow', bound='control-flow skeleton (E3) with variable-identity tags; loops unrolled twice',
+                  clause='build_transport_advertise_candidates publishes a host only if private advertising is allowed or the classifier found that host routable'),
+            Group('candidates.control', 'advertise_flow', 'C34/flow.c', entry='h_control', unwind=3, kind='skeleton', checks=[], skeleton=True,
+                  replay='flow', bound='control-flow skeleton (E3) with variable-identity tags; loops unrolled twice',
+                  clause='discover_control_advertise_candidates publishes a host only if private advertising is allowed or the classifier found that host routable'),
             Group('host.names', 'advertise', 'C34/classify.c', entry='h_host_names',
                   clause='localhost / 0.0.0.0 / ::1 / empty host are withheld', **U)]
 
@@ -24,6 +30,11 @@ def replay(group, trace):
     root = os.path.dirname(os.path.dirname(os.path.abspath(__file__)))
     sys.path.insert(0, os.path.join(root, 'replay'))
     import replaylib as R
+    if group.replay == 'flow':
+        exe = R.build('C34flow.cpp', ['src/network/NatTraversal.cpp'])
+        rc, out = R.run(exe, [], timeout=60)
+        last = [l for l in out.strip().splitlines() if l.strip()][-1:] or ['']
+        return rc == 1, last[0][:400]
     a = (trace or {}).get('assignments', {})
     if 'in_ip._[0]' not in a:
         return None, 'counterexample has no address'
